@@ -2,6 +2,7 @@
 C01: the round trip through a (non-pruning) List.
 -/
 import Proofs.Lemmas.C01Dict
+import Proofs.C02Order
 namespace Flatland.Flat.Proofs
 open Flatland.Flat Flatland.Flat.Spec
 
@@ -311,8 +312,7 @@ theorem rt_list (hs : SepSafe env sep T) (henv : EnvOK env) (nm : Option Str)
   | list ms =>
     simp only [Ok] at hok
     obtain ⟨hprune, hlen, hdig, hmem⟩ := hok
-    subst hprune
-    have hr : resolve env (.list nm o false mx member) (.list ms)
+    have hr : resolve env (.list nm o prune mx member) (.list ms)
         = .mk nm false true [] true (resolveList env member ms) := by
       unfold resolve; rfl
     rw [hr, relFlat_eq]
@@ -333,6 +333,46 @@ theorem rt_list (hs : SepSafe env sep T) (henv : EnvOK env) (nm : Option Str)
       refine ⟨i, ext, hi, hxe, ?_⟩
       simp only [pre, hxe]
       exact listAddr_path hs henv nm hnm i (hdig i (by omega)) ext hext
+    -- under a pruning list every value is non-empty, so the prune filter drops nothing
+    have hvals : prune = true → ∀ x ∈ Ls, x.2 ≠ [] := by
+      intro hp x hx
+      obtain ⟨i, ext, hi, hxe, _⟩ := hheads x hx
+      have hsf := slots_filter henv kids i hi
+      rw [hLs] at hsf
+      have hxin : x ∈ Ls.filter (fun y => y.1.head? == some (natStr i)) := by
+        apply List.mem_filter.mpr
+        exact ⟨hx, by simp [hxe]⟩
+      rw [hsf] at hxin
+      obtain ⟨y, hy, hyx⟩ := List.mem_map.mp hxin
+      have hi' : i < ms.length := by omega
+      have hk : kids[i] = resolve env member ms[i] := by simp [← hkids]
+      have hvn := hprune hp ms[i] (List.getElem_mem hi')
+      unfold valuesNonempty at hvn
+      rw [flatten_eq_relFlat, ← hk] at hvn
+      have := hvn (joinPair [] y) (List.mem_map_of_mem hy)
+      rw [← hyx]; simpa [joinPair, pre] using this
+    have hpf : ∀ x ∈ Ls, (prune && x.2.isEmpty) = false := by
+      intro x hx
+      cases hp : prune with
+      | false => rfl
+      | true =>
+        have := hvals hp x hx
+        cases hx2 : x.2 with
+        | nil => exact absurd hx2 this
+        | cons a as => rfl
+    have hgrp_eq : ∀ i, groupOf env sep nm prune i (toKeys sep (Ls.map (pre nm.toList)))
+        = groupOf env sep nm false i (toKeys sep (Ls.map (pre nm.toList))) := by
+      intro i
+      simp only [groupOf, toKeys, List.filterMap_map]
+      apply filterMap_congr'
+      intro x hx
+      simp only [Function.comp, pre, hpf x hx, Bool.false_and, Bool.false_eq_true, if_false]
+    have hidx_eq : indexesOf env sep nm prune (toKeys sep (Ls.map (pre nm.toList)))
+        = indexesOf env sep nm false (toKeys sep (Ls.map (pre nm.toList))) := by
+      simp only [indexesOf, toKeys, List.filterMap_map]
+      apply filterMap_congr'
+      intro x hx
+      simp only [Function.comp, pre, hpf x hx, Bool.false_and, Bool.false_eq_true, if_false]
     -- the group of slot i is the member's own output
     have hgroup : ∀ i, (hi : i < kids.length) →
         groupOf env sep nm false i (toKeys sep (Ls.map (pre nm.toList)))
@@ -399,6 +439,7 @@ theorem rt_list (hs : SepSafe env sep T) (henv : EnvOK env) (nm : Option Str)
       simp [natStr_inj henv hxe.1]
     -- now run `_set_flat`
     rw [setFlat]
+    simp only [hidx_eq, hgrp_eq]
     by_cases hk0 : kids.length = 0
     · have hms : ms = [] := by
         apply List.eq_nil_of_length_eq_zero; omega
@@ -424,6 +465,25 @@ theorem rt_list (hs : SepSafe env sep T) (henv : EnvOK env) (nm : Option Str)
         have h2 := foldl_max_mem_ge idxs 0 _ hlast
         omega
       simp only [hPSne, hidne, Bool.false_eq_true, if_false, htop]
+      have hsd : (sortedDistinct idxs).take mx = List.range kids.length := by
+        have hsr : sortedDistinct idxs = List.range kids.length := by
+          apply sorted_unique _ _ (sortedDistinct_spec idxs).1
+          · exact List.pairwise_lt_range
+          · intro x
+            rw [(sortedDistinct_spec idxs).2 x, List.mem_range]
+            exact ⟨hidx_lt x, hidx_mem x⟩
+        rw [hsr]
+        apply List.take_of_length_le
+        simp; omega
+      have hboth : (if prune = true then
+            Elem.list (buildSlots (blank member) (fun g => setFlat env sep member (blank member) g)
+              ((sortedDistinct idxs).take mx) (fun i => groupOf env sep nm false i PS))
+          else Elem.list (buildSlots (blank member) (fun g => setFlat env sep member (blank member) g)
+              (List.range kids.length) (fun i => groupOf env sep nm false i PS)))
+          = Elem.list (buildSlots (blank member) (fun g => setFlat env sep member (blank member) g)
+              (List.range kids.length) (fun i => groupOf env sep nm false i PS)) := by
+        rw [hsd]; split <;> rfl
+      rw [hboth]
       congr 1
       unfold buildSlots
       apply List.ext_getElem
